@@ -170,7 +170,9 @@ impl Matrix {
                         t.trap_term = self.trap_term;
                     }
                     if self.wait {
-                        t.wait_ms = Some(2000);
+                        // a waiting test case in the last position waits "for ever": the document limit
+                        // bounds the wait itself
+                        t.wait_ms = Some(if self.pos + 1 == self.n { 20_000 } else { 2000 });
                     }
                 }
                 t
@@ -728,6 +730,18 @@ impl C14 {
                 verdict = Some((
                     format!("C14/not-bounded/{fmt}{term}"),
                     format!("scrut returned after {wall:?}: it waited for the 8 s command although the smallest limit is <= 1 s"),
+                ));
+            } else if wall >= Duration::from_secs(6) {
+                return Checked::inconclusive(format!("scrut returned after {wall:?}: neither clearly bounded (< 6 s) nor clearly unbounded (>= 8 s)"));
+            }
+        }
+        if verdict.is_none() && case.wait && case.pos + 1 == case.n {
+            let wall = obs.proc.wall;
+            buckets.push(format!("B:wait-returned-after-s={}", wall.as_secs().min(9)));
+            if wall >= Duration::from_millis(SLOW_MS) {
+                verdict = Some((
+                    format!("C14/not-bounded/{fmt}/wait"),
+                    format!("scrut returned after {wall:?}: it sat out a 20 s `wait` although the document limit is 1 s"),
                 ));
             } else if wall >= Duration::from_secs(6) {
                 return Checked::inconclusive(format!("scrut returned after {wall:?}: neither clearly bounded (< 6 s) nor clearly unbounded (>= 8 s)"));
